@@ -15,7 +15,7 @@ def _fix(name, v):
     return v == FIXED[name] if name in FIXED else True
 
 
-NAMES = ["a", "b", "c", "p", "arr", "sub", "x", "flag", "absent"]
+NAMES = ["a", "b", "c", "p", "arr", "sub", "x", "flag", "absent", "values"]
 NONE_N = len(NAMES)            # selector value meaning "no name"
 TYPES = [int, str, np.ndarray, dict, Sub, Path, float]
 NONE_T = len(TYPES)
@@ -43,7 +43,11 @@ def build(i, s, f):
     o.sub = mid
     o.flag = True
     o.f = 0.25 if f is None else f
-    o.d = {"a": i, "sub": "not an attribute"}
+    # names that also occur *inside* containers / in the storage layout (dict keys, the "values" dataset of a
+    # numeric list, zarr's chunk directory "c") must not be affected by skipping the attribute of that name
+    # (no AutoSerialize object inside a container: the property only quantifies over attribute-nested objects)
+    o.d = {"a": i, "sub": "not an attribute", "arr": np.array([4, 5]), "x": [1.5, 2.5]}
+    o.nums = [1.5, 2.5, 3.5]
     return o
 
 
